@@ -54,8 +54,20 @@ OddSpace == {ChrTable[11], ChrTable[12], ChrTable[13]}
 EscInSysLine(text) ==
   \E i \in 1..Len(text) : /\ text[i] = "#" /\ (i = 1 \/ text[i - 1] = "\n")
                           /\ \E j \in i..Len(text) : text[j] = "_" /\ \A k \in i..j : text[k] # "\n"
+\* #if / #elseif / #else / #endif make the includer drop lines; Scan does not transcribe that (module Directives
+\* does, for the directive soups): a text with such a line gets no certificate from the scanner model
+IfWords == << <<"i", "f">>, <<"e", "l", "s", "e">>, <<"e", "n", "d", "i", "f">> >>
+StartsWith(s, w) == Len(s) >= Len(w) /\ SubSeq(s, 1, Len(w)) = w
+RECURSIVE SkipBlanks(_)
+SkipBlanks(s) == IF Len(s) > 0 /\ s[1] \in {" ", "\t"} THEN SkipBlanks(Tail(s)) ELSE s
+HasConditional(text) ==
+  LET rl == RawLines(text)
+  IN  \E i \in 1..Len(rl) : /\ rl[i][1] = "#"
+                             /\ LET rest == SkipBlanks(Tail(rl[i]))
+                                IN  \E k \in 1..Len(IfWords) : StartsWith(rest, IfWords[k])
 Faithful(text) == /\ \A i \in 1..(Len(text) - 1) : ~(text[i] = "_" /\ text[i + 1] \in OddSpace)
                   /\ ~EscInSysLine(text)
+                  /\ ~HasConditional(text)
 
 ---------------------------------------------------------------------------
 (* the text as the includer hands it to the scanner when there are NULs     *)
